@@ -1,5 +1,8 @@
 import json
 
+from fsspec.implementations.dirfs import DirFileSystem
+
+from ceos_alos2.array import Array
 from ceos_alos2.sar_image.caching.decoders import decode_hierarchy, postprocess
 from ceos_alos2.sar_image.caching.encoders import encode_hierarchy, preprocess
 from ceos_alos2.sar_image.caching.path import (
@@ -28,17 +31,28 @@ def decode(cache, records_per_chunk):
         raise CachingError(f"invalid cache: {e}") from e
 
 
+def rebind_filesystem(group, fs):
+    # the cache only stores the root path, so read the image through the
+    # filesystem of the current call
+    for var in group.variables.values():
+        if isinstance(var.data, Array):
+            var.data.fs = DirFileSystem(path=var.data.fs.path, fs=fs)
+
+    return group
+
+
 def read_cache(mapper, path, records_per_chunk):
     remote = remote_cache_location(mapper.root, path)
     local = local_cache_location(mapper.root, path)
 
     if local.is_file():
-        return decode(local.read_text(), records_per_chunk=records_per_chunk)
+        group = decode(local.read_text(), records_per_chunk=records_per_chunk)
+    elif remote in mapper:
+        group = decode(mapper[remote].decode(), records_per_chunk=records_per_chunk)
+    else:
+        raise CachingError(f"no cache found for {path}")
 
-    if remote in mapper:
-        return decode(mapper[remote].decode(), records_per_chunk=records_per_chunk)
-
-    raise CachingError(f"no cache found for {path}")
+    return rebind_filesystem(group, mapper.fs)
 
 
 def create_cache(mapper, path, data):
